@@ -1,8 +1,21 @@
-import Flatland.JsonUtil
-open Lean Flatland.J
+import Flatland.Run.FlatCommon
+open Lean
+open Flatland.J hiding Str
 namespace Flatland.Run.C01
+open Flatland.Flat Flatland.Run.FlatCommon
 
-/-- JSON case in, JSON observation out (stub until the model of C01 is written). -/
-def run (_j : Json) : Except String Json := .error "model runner for C01 not implemented yet"
+/-- case: schema, sep, elem (state of the element populated with set()), env -/
+def run (j : Json) : Except String Json := do
+  let s ← parseSchema (← fld j "schema")
+  let sep ← cfld j "sep"
+  let env ← parseEnv (← fld j "env")
+  let e ← parseElem (← fld j "elem")
+  let f0 := flatten env sep s e
+  let e1 := fromFlat env sep s f0
+  let f1 := flatten env sep s e1
+  let e2 := fromFlat env sep s f1
+  let f2 := flatten env sep s e2
+  return obj [("flatten", pairsJson f0), ("rt_elem", elemJson e1), ("rt_flatten", pairsJson f1),
+              ("rt2_flatten", pairsJson f2)]
 
 end Flatland.Run.C01
